@@ -145,117 +145,12 @@ fn logical_op__precedence_order() {
     assert!((Some(a) <= Some(b)) == (rank(a) <= rank(b)));
 }
 
-// ---------------------------------------------------------------------------
-// and / or / xor on single booleans: the `Combining` arm of
-// `LogicalExpr::compile_with_compiler`, lifted mechanically (kani/extract_arms.py),
-// checked against the contract of its compiled children (Canned closures).
-use super::extracted;
-
-fn combining_one<const N: usize>() {
-    let scheme = scheme_of(&[(Type::Bool, false)], true);
-    let vals: [bool; N] = kani::any();
-    let op = any_op();
-    let mut items = Vec::with_capacity(N);
-    let mut i = 0;
-    while i < N {
-        items.push(leaf(&scheme));
-        i += 1;
-    }
-    let mut c = Canned { next: 0, vals };
-    let compiled = extracted::arm_combining(&mut c, op, items);
-    assert!(c.next == N, "every operand is compiled exactly once, in order");
-    let got = run_one(compiled, &scheme);
-    let mut all = true;
-    let mut any = false;
-    let mut parity = false;
-    let mut i = 0;
-    while i < N {
-        all = all && vals[i];
-        any = any || vals[i];
-        parity = parity ^ vals[i];
-        i += 1;
-    }
-    let want = match op {
-        LogicalOp::And => all,
-        LogicalOp::Or => any,
-        LogicalOp::Xor => parity,
-    };
-    assert!(got == want, "and = all operands, or = some operand, xor = odd number of true operands");
-    kani::cover!(op == LogicalOp::Xor && got);
-    kani::cover!(op == LogicalOp::And && !got);
-    std::mem::forget(scheme);
-}
-
-#[kani::proof]
-#[kani::unwind(5)]
-fn combining_one__and_or_xor_n2() {
-    combining_one::<2>()
-}
-
-#[kani::proof]
-#[kani::unwind(6)]
-fn combining_one__and_or_xor_n3() {
-    combining_one::<3>()
-}
-
-// ---------------------------------------------------------------------------
-// Precedence climbing on the REAL parser (`LogicalExpr::lex_with`), made reachable by
-// replacing the name registry lookup `Scheme::get` by its contract (linear search).
-use crate::ast::parse::FilterParser;
-use crate::lex::LexWith;
-use crate::scheme::verif_kani::common::scheme_named;
-
-/// Reference evaluation of a parsed tree over 4 boolean fields a, b, c, d.
-fn eval(e: &LogicalExpr, v: &[bool; 4], depth: u32) -> bool {
-    if depth == 0 {
-        return false;
-    }
-    match e {
-        LogicalExpr::Comparison(c) => match &c.lhs.identifier {
-            IdentifierExpr::Field(f) => v[f.index() & 3],
-            _ => false,
-        },
-        LogicalExpr::Parenthesized(p) => eval(&p.expr, v, depth - 1),
-        LogicalExpr::Unary { arg, .. } => !eval(arg, v, depth - 1),
-        LogicalExpr::Quantifier { .. } => false,
-        LogicalExpr::Combining { op, items } => {
-            let mut acc = match op {
-                LogicalOp::And => true,
-                _ => false,
-            };
-            let mut i = 0;
-            while i < items.len() {
-                let x = eval(&items[i], v, depth - 1);
-                acc = match op {
-                    LogicalOp::And => acc && x,
-                    LogicalOp::Or => acc || x,
-                    LogicalOp::Xor => acc ^ x,
-                };
-                i += 1;
-            }
-            acc
-        }
-    }
-}
-
-#[kani::proof]
-#[kani::unwind(8)]
-#[kani::stub(crate::scheme::Scheme::get, crate::scheme::verif_kani::common::scheme_get__contract)]
-fn parse_precedence__or_and_xor_concrete() {
-    let scheme = scheme_named(&[("a", Type::Bool), ("b", Type::Bool), ("c", Type::Bool), ("d", Type::Bool)], true);
-    let parser = FilterParser::new(&scheme);
-    let r = LogicalExpr::lex_with("a or b and c xor d", &parser);
-    let v: [bool; 4] = kani::any();
-    match &r {
-        Ok((e, rest)) => {
-            assert!(rest.is_empty(), "the whole input is consumed");
-            // binding strength and > xor > or:  a or ((b and c) xor d)
-            assert!(eval(e, &v, 6) == (v[0] || ((v[1] && v[2]) ^ v[3])), "binding strength and > xor > or");
-        }
-        Err(_) => {
-            assert!(false, "a well-typed filter must parse");
-        }
-    }
-    std::mem::forget(r);
-    std::mem::forget(scheme);
-}
+// NOT REGISTERED (measured in the implementation round, kept as a record):
+//  * and/or/xor on single booleans through `extracted::arm_combining` with Canned children,
+//    N = 2, 3: no result in 15 min (CBMC explores the infeasible `CompiledExpr::Vec` branch
+//    including `dyn Fn` drop glue over every closure).
+//  * the real parser (`LogicalExpr::lex_with`) on the CONCRETE input "a or b and c xor d",
+//    with `Scheme::get` replaced by its contract (linear search) and `Regex::new` by a
+//    must-not-be-reached stub: no result in 15 min - every failed alternative of the
+//    recursive descent drops a `LexErrorKind`, whose drop glue (BTreeSet-backed
+//    `ExpectedTypeList`) CBMC explores because the variant tag is not folded.
